@@ -179,6 +179,234 @@ let dump_program (p : stmt list) : string =
   Buffer.add_string b "(prog"; List.iter (fun s -> Buffer.add_char b ' '; dump_stmt b s) p; Buffer.add_string b ")";
   Buffer.contents b
 
+(* ---------- big integers <-> extracted Z ---------- *)
+let rec pos_of_bigz (b : BigZ.t) : positive =
+  if BigZ.equal b BigZ.one then XH
+  else if BigZ.is_even b then XO (pos_of_bigz (BigZ.shift_right b 1))
+  else XI (pos_of_bigz (BigZ.shift_right b 1))
+let z_of_bigz (b : BigZ.t) : z =
+  if BigZ.sign b = 0 then Z0 else if BigZ.sign b > 0 then Zpos (pos_of_bigz b) else Zneg (pos_of_bigz (BigZ.neg b))
+let z_of_string (s : string) : z = z_of_bigz (BigZ.of_string s)
+let rec bigz_of_pos p = match p with XH -> BigZ.one | XO p -> BigZ.shift_left (bigz_of_pos p) 1 | XI p -> BigZ.succ (BigZ.shift_left (bigz_of_pos p) 1)
+let bigz_of_z = function Z0 -> BigZ.zero | Zpos p -> bigz_of_pos p | Zneg p -> BigZ.neg (bigz_of_pos p)
+let rec nat_of_int (i : int) : nat = if i <= 0 then O else S (nat_of_int (i - 1))
+
+(* ---------- strconv.FormatFloat(f, 'f', -1, 64) ---------- *)
+let go_format_float (f : float) : string =
+  if Float.is_nan f then "NaN"
+  else if f = Float.infinity then "+Inf"
+  else if f = Float.neg_infinity then "-Inf"
+  else if f = 0.0 then (if 1.0 /. f < 0.0 then "-0" else "0")
+  else begin
+    let neg = f < 0.0 in
+    let a = Float.abs f in
+    (* shortest digits that round-trip *)
+    let rec find p =
+      let s = Printf.sprintf "%.*e" (p - 1) a in
+      if p >= 17 || float_of_string s = a then s else find (p + 1) in
+    let s = find 1 in
+    (* s = d.ddddde[+-]XX *)
+    let epos = String.index s 'e' in
+    let mant = String.sub s 0 epos in
+    let exp = int_of_string (String.sub s (epos + 1) (String.length s - epos - 1)) in
+    let digits = String.concat "" (String.split_on_char '.' mant) in
+    (* strip trailing zeros of the digit string *)
+    let n = ref (String.length digits) in
+    while !n > 1 && digits.[!n - 1] = '0' do decr n done;
+    let digits = String.sub digits 0 !n in
+    let nd = String.length digits in
+    let point = exp + 1 in   (* position of the decimal point relative to digits *)
+    let body =
+      if point <= 0 then "0." ^ String.make (-point) '0' ^ digits
+      else if point >= nd then digits ^ String.make (point - nd) '0'
+      else String.sub digits 0 point ^ "." ^ String.sub digits point (nd - point) in
+    (if neg then "-" else "") ^ body
+  end
+
+(* ---------- value / host value / program codecs (same as harness/run.go) ---------- *)
+let split_top (s : string) (sep : char) : string list =
+  if s = "" then [] else begin
+    let out = ref [] and depth = ref 0 and start = ref 0 in
+    String.iteri (fun i c ->
+      if c = '(' then incr depth else if c = ')' then decr depth
+      else if c = sep && !depth = 0 then begin
+        out := String.sub s !start (i - !start) :: !out; start := i + 1 end) s;
+    out := String.sub s !start (String.length s - !start) :: !out;
+    List.rev !out end
+
+let inner (s : string) (skip : int) : string = String.sub s skip (String.length s - skip - 1)
+let float_of_bits (h : string) : Float64.t = Float64.of_float (Int64.float_of_bits (Int64.of_string ("0x" ^ h)))
+let bits_of_float (f : Float64.t) : string = float_bits (Float64.to_float f)
+
+let ora : (string, unit) Hashtbl.t = Hashtbl.create 64
+let ora_match : (string * string, string) Hashtbl.t = Hashtbl.create 64
+let ora_repl : (string * string * string, string) Hashtbl.t = Hashtbl.create 64
+let ora_lower : (string, string) Hashtbl.t = Hashtbl.create 64
+let ora_upper : (string, string) Hashtbl.t = Hashtbl.create 64
+let load_oracle (s : string) =
+  Hashtbl.reset ora_match; Hashtbl.reset ora_repl; Hashtbl.reset ora_lower; Hashtbl.reset ora_upper;
+  if s <> "" then
+  List.iter (fun f ->
+    match String.split_on_char ':' f with
+    | ["m"; re; str; r] -> Hashtbl.replace ora_match (re, str) r
+    | ["x"; str; re; rp; r] -> Hashtbl.replace ora_repl (str, re, rp) r
+    | ["l"; a; b] -> Hashtbl.replace ora_lower a b
+    | ["u"; a; b] -> Hashtbl.replace ora_upper a b
+    | _ -> ()) (String.split_on_char ';' s)
+
+let stdlib_oracle : stdlib = {
+  fmt_float = (fun f -> Some (str_of_string (go_format_float (Float64.to_float f))));
+  parse_float = parse_float_oracle;
+  pow_float = (fun a b ->
+    (* exact cases only: small integer base and exponent with an exactly representable result *)
+    let a = Float64.to_float a and b = Float64.to_float b in
+    if Float.is_integer a && Float.is_integer b && b >= 0.0 && b <= 64.0 && Float.abs a <= 1048576.0 then begin
+      let r = BigZ.pow (BigZ.of_float a) (int_of_float b) in
+      if BigZ.lt (BigZ.abs r) (BigZ.of_string "9007199254740992") then Some (Float64.of_float (BigZ.to_float r)) else None end
+    else None);
+  re_match = (fun re s ->
+    match Hashtbl.find_opt ora_match (hxs re, hxs s) with
+    | Some "1" -> Some (Some true) | Some "0" -> Some (Some false) | Some "e" -> Some None | _ -> None);
+  re_replace = (fun s re rp ->
+    match Hashtbl.find_opt ora_repl (hxs s, hxs re, hxs rp) with
+    | Some "e" -> Some None | Some r -> Some (Some (str_of_string (unhex r))) | None -> None);
+  to_lower = (fun s -> match Hashtbl.find_opt ora_lower (hxs s) with Some r -> Some (str_of_string (unhex r)) | None -> None);
+  to_upper = (fun s -> match Hashtbl.find_opt ora_upper (hxs s) with Some r -> Some (str_of_string (unhex r)) | None -> None);
+  trim_space = (fun _ -> None);
+  sprintf = (fun _ _ -> None);
+  getenv = (fun _ -> None);
+  tz_fields = (fun t ->
+    let b = bigz_of_z t in
+    if BigZ.gt (BigZ.abs b) (BigZ.of_string "100000000000") then None else Some (utc_fields t));
+}
+
+let rec enc_value (v : value) : string =
+  match v with
+  | VInt z -> "i" ^ z_to_string z
+  | VFloat f -> "f" ^ bits_of_float f
+  | VStr s -> "s" ^ hxs s
+  | VBool true -> "b1" | VBool false -> "b0"
+  | VNull -> "n" | VVoid -> "v"
+  | VRegexp s -> "r" ^ hxs s
+  | VArray l -> "a(" ^ String.concat "," (List.map enc_value l) ^ ")"
+  | VHash l -> "h(" ^ String.concat "," (List.sort compare (List.map (fun (k, x) -> enc_value k ^ "=" ^ enc_value x) l)) ^ ")"
+  | VIter (v, _) -> "ITER:" ^ enc_value v
+
+let rec dec_value (s : string) : value =
+  match s.[0] with
+  | 'i' -> VInt (z_of_string (String.sub s 1 (String.length s - 1)))
+  | 'f' -> VFloat (float_of_bits (String.sub s 1 16))
+  | 's' -> VStr (str_of_string (unhex (String.sub s 1 (String.length s - 1))))
+  | 'b' -> VBool (s.[1] = '1')
+  | 'n' -> VNull | 'v' -> VVoid
+  | 'r' -> VRegexp (str_of_string (unhex (String.sub s 1 (String.length s - 1))))
+  | 'a' -> VArray (List.map dec_value (split_top (inner s 2) ','))
+  | 'h' ->
+    let pairs = List.map (fun p -> match split_top p '=' with [k; v] -> (dec_value k, dec_value v) | _ -> failwith "bad hash") (split_top (inner s 2) ',') in
+    VHash (List.fold_left (fun acc (k, v) ->
+      match hash_key stdlib_oracle k with
+      | Some (Some hk) -> (match hash_put stdlib_oracle acc hk k v with Some a -> a | None -> acc)
+      | _ -> acc) [] pairs)
+  | _ -> failwith ("bad value " ^ s)
+
+let rec dec_host (s : string) : hostval =
+  let rest k = String.sub s k (String.length s - k) in
+  let bits_val str = match String.split_on_char '.' str with [b; v] -> (b, v) | _ -> failwith "bad host" in
+  match s.[0] with
+  | 'N' -> HNil
+  | 'I' -> let (b, v) = bits_val (rest 1) in HInt (n_of_int (int_of_string b), z_of_string v)
+  | 'U' -> let (b, v) = bits_val (rest 1) in HUint (n_of_int (int_of_string b), z_of_string v)
+  | 'F' -> let (b, v) = bits_val (rest 1) in
+    let f = Int64.float_of_bits (Int64.of_string ("0x" ^ v)) in
+    let f = if b = "32" then Int32.float_of_bits (Int32.bits_of_float f) else f in
+    HFloat (n_of_int (int_of_string b), Float64.of_float f)
+  | 'S' -> HString (str_of_string (unhex (rest 1)))
+  | 'B' -> HBool (s.[1] = '1')
+  | 'T' -> HTime (z_of_string (rest 1))
+  | 'L' ->
+    let parts = split_top (inner s 3) ',' in
+    if s.[1] = 't' then begin
+      (* typed slice: elements of another dynamic type than the first are not representable *)
+      match parts with
+      | [] -> HSlice []
+      | p0 :: _ ->
+        let tag x = (match x with 'I' | 'U' | 'F' -> true | _ -> false) in
+        let ty p = if tag p.[0] then String.sub p 0 (String.index p '.') else String.make 1 p.[0] in
+        HSlice (List.map dec_host (List.filter (fun p -> ty p = ty p0 && p.[0] <> 'N') parts)) end
+    else HSlice (List.map dec_host parts)
+  | 'M' -> HMapIface (List.map (fun p -> match split_top p '=' with [k; v] -> (str_of_string (unhex k), dec_host v) | _ -> failwith "bad map") (split_top (inner s 2) ','))
+  | 'O' -> HMapOther ((if s.[1] = '0' then N0 else n_of_int 1), List.map (fun p -> match split_top p '=' with [k; v] -> (dec_host k, dec_host v) | _ -> failwith "bad map") (split_top (inner s 3) ','))
+  | 'R' -> HStruct (List.map (fun p -> match split_top p '=' with [k; v] -> (str_of_string (unhex k), dec_host v) | _ -> failwith "bad struct") (split_top (inner s 2) ','))
+  | 'P' -> HPtr (dec_host (inner s 2))
+  | 'Q' -> HNilPtr
+  | 'X' -> HIface (dec_host (inner s 2))
+  | 'Z' -> HOther
+  | _ -> failwith ("bad host value " ^ s)
+
+let hex_of_code (l : n list) : string =
+  let b = Buffer.create (2 * List.length l) in
+  List.iter (fun x -> Buffer.add_string b (Printf.sprintf "%02x" (int_of_n x))) l; Buffer.contents b
+
+let enc_program (p : program_code) : string =
+  let fs = List.sort compare (List.map (fun (n, f) ->
+    hxs n ^ "." ^ String.concat "_" (List.map hxs f.fparams) ^ "." ^ hex_of_code f.fcode) p.pfuncs) in
+  "C" ^ String.concat "," (List.map enc_value p.pconsts) ^ "~M" ^ hex_of_code p.pmain ^ "~F" ^ String.concat "+" fs
+
+let class_name = function
+  | ROk -> "ok" | RScriptError -> "script-error" | RInternalError -> "internal-error"
+  | RTimeout -> "timeout" | RPanicRecovered -> "panic-recovered" | RCrash -> "crash"
+
+let enc_trace (tr : call list) : string =
+  String.concat "+" (List.map (fun c -> hxs c.cname ^ "(" ^ String.concat "," (List.map enc_value c.cargs) ^ ")") tr)
+let enc_vars (vars : (str * value) list) : string =
+  String.concat "&" (List.sort compare (List.map (fun (n, v) -> hxs n ^ "=" ^ enc_value v) vars))
+let rec int_of_nat = function O -> 0 | S n -> 1 + int_of_nat n
+
+let dec_op (objs : hostval array) (s : string) : op =
+  let p = Array.of_list (String.split_on_char ':' s) in
+  let obj k = if k < Array.length objs then objs.(k) else HNil in
+  match p.(0) with
+  | "setvar" -> OSetVar (str_of_string (unhex p.(1)), dec_value p.(2))
+  | "addfn" ->
+    let k = match p.(2) with
+      | "arg0" -> HKArg0 | "void" -> HKVoid | "panic" -> HKPanic
+      | c -> HKConst (dec_value (String.sub c 1 (String.length c - 1))) in
+    OAddFn (str_of_string (unhex p.(1)), k)
+  | "ctx" -> OCtx (if p.(1) = "none" then None else Some (n_of_int (int_of_string p.(1))))
+  | "prepare" -> OPrepare (p.(1) <> "noopt")
+  | "run" -> ORun (obj (if Array.length p > 1 then int_of_string p.(1) else 0))
+  | "exec" -> OExec (obj (if Array.length p > 1 then int_of_string p.(1) else 0))
+  | "getvar" -> OGetVar (str_of_string (unhex p.(1)))
+  | "dump" -> ODump
+  | x -> failwith ("bad op " ^ x)
+
+let enc_opres (r : opres) : string =
+  match r with
+  | RPrepared (false, _, _) -> "P|error"
+  | RPrepared (true, Some u, Some p) -> "P|ok|" ^ enc_program u ^ "|" ^ enc_program p
+  | RPrepared (true, _, _) -> "P|ok"
+  | RExec (c, v, tr, vars, ns, rs) ->
+    Printf.sprintf "E|%s|%s|%s|%s|%d|%d" (class_name c) (enc_value v) (enc_trace tr) (enc_vars vars) (int_of_nat ns) (int_of_nat rs)
+  | RRun (c, b, tr, vars, ns, rs) ->
+    Printf.sprintf "R|%s|%s|%s|%s|%d|%d" (class_name c) (if b then "b1" else "b0") (enc_trace tr) (enc_vars vars) (int_of_nat ns) (int_of_nat rs)
+  | RGet v -> "G|" ^ enc_value v
+  | RUnit -> "U"
+  | RCrashed -> "X"
+  | RNeed -> "N"
+  | RFuel -> "Q"
+
+let default_fuel = ref 200000
+
+let run_history_case c =
+  load_oracle (field c "ora");
+  let src = str_of_string (unhex (field c "script")) in
+  let objs = Array.of_list (List.map dec_host (if field c "objs" = "" then [] else split_top (field c "objs") ';')) in
+  let ops = if field c "ops" = "" then ["prepare:opt"; "exec:0"] else String.split_on_char ';' (field c "ops") in
+  let ops = List.map (dec_op objs) ops in
+  let res = run_history stdlib_oracle (nat_of_int !default_fuel) (new_eval src) ops in
+  let parts = List.mapi (fun i r -> Printf.sprintf "o%d=%s" i (enc_opres r)) res in
+  Printf.printf "id=%s\tn=%d\t%s\n" (field c "id") (List.length res) (String.concat "\t" parts)
+
 (* ---------- case kinds ---------- *)
 let lex_case c =
   let src = str_of_string (unhex (field c "script")) in
@@ -202,6 +430,7 @@ let run_case c =
   match field c "kind" with
   | "lex" -> lex_case c
   | "parse" -> parse_case c
+  | "run" -> run_history_case c
   | k -> Printf.printf "id=%s\tunsupported=%s\n" (field c "id") k
 
 let () =
@@ -210,7 +439,12 @@ let () =
   (try
     while true do
       let line = input_line ic in
-      if String.length line > 0 && line.[0] <> '#' then run_case (parse_line line)
+      if String.length line > 0 && line.[0] <> '#' then begin
+        let c = parse_line line in
+        (try run_case c with
+         | Stack_overflow -> Printf.printf "id=%s\tfuel=stack\n" (field c "id")
+         | e -> Printf.printf "id=%s\tdriver_error=%s\n" (field c "id") (hx (Printexc.to_string e)))
+      end
     done
   with End_of_file -> ());
   close_in ic
